@@ -1,6 +1,6 @@
 use crate::internal::codepage::CodePage;
 use byteorder::{LittleEndian, ReadBytesExt, WriteBytesExt};
-use std::collections::HashSet;
+use std::collections::HashMap;
 use std::io::{self, Read, Write};
 
 // ========================================================================= //
@@ -223,36 +223,49 @@ impl StringPool {
         }
     }
 
-    /// Returns true if all of the given strings can be interned without
-    /// exceeding the number of entries that string references can address,
-    /// given that `num_released` entries will become unused first.
+    /// Returns true if all of the given strings can be interned, each the
+    /// given number of times, without exceeding the number of entries that
+    /// string references can address, given that `num_released` entries will
+    /// become unused first.  (An entry holds at most `u16::MAX` references,
+    /// so a string that is referenced more often needs several entries.)
     pub(crate) fn has_room_for<'a, I>(
         &self,
         strings: I,
         num_released: usize,
     ) -> bool
     where
-        I: Iterator<Item = &'a str>,
+        I: Iterator<Item = (&'a str, usize)>,
     {
         let max_entries = if self.long_string_refs {
             MAX_STRING_REF as usize
         } else {
             u16::MAX as usize
         };
-        let mut new_strings: HashSet<&str> =
-            strings.filter(|string| !string.is_empty()).collect();
-        if self.strings.len() + new_strings.len() <= max_entries {
+        let max_refcount = u16::MAX as usize;
+        let entries_for = |count: usize| count.div_ceil(max_refcount);
+        let mut new_refs = HashMap::<&str, usize>::new();
+        for (string, count) in strings {
+            if !string.is_empty() {
+                *new_refs.entry(string).or_insert(0) += count;
+            }
+        }
+        let upper_bound: usize =
+            new_refs.values().map(|&count| entries_for(count)).sum();
+        if self.strings.len() + upper_bound <= max_entries {
             return true;
         }
         let mut num_unused = num_released;
         for (string, refcount) in self.strings.iter() {
             if *refcount == 0 {
                 num_unused += 1;
-            } else if *refcount < u16::MAX {
-                new_strings.remove(string.as_str());
+            } else if let Some(count) = new_refs.get_mut(string.as_str()) {
+                let room = max_refcount - (*refcount as usize);
+                *count = count.saturating_sub(room);
             }
         }
-        self.strings.len() + new_strings.len() <= max_entries + num_unused
+        let num_needed: usize =
+            new_refs.values().map(|&count| entries_for(count)).sum();
+        self.strings.len() + num_needed <= max_entries + num_unused
     }
 
     /// Inserts a string into the pool, or increments its refcount if it's
